@@ -8,6 +8,7 @@
 package main
 
 import (
+	"database/sql"
 	"errors"
 	"fmt"
 	"os"
@@ -45,6 +46,8 @@ const (
 	opR  = 'R' // cache Reset
 	opC  = 'C' // cache Close
 	opP  = 'P' // first-use Session{PrepareStmt:true}.Exec qExec (only with Config.PrepareStmt=false)
+	opW  = 'w' // Raw(qSel).Row().Scan on own key (QueryRowContext path)
+	opV  = 'V' // Transaction{Exec qExec; Raw(qSel).Row().Scan} (QueryRowContext inside a transaction)
 )
 
 type Program struct {
@@ -192,6 +195,34 @@ func runOne(p Program, x *mc.Exec, keepLog bool) *outcome {
 						}
 						return nil
 					})
+				case opW:
+					var v int64
+					row := h.Raw(qSel, key).Row()
+					if row == nil {
+						r.Err = errors.New("Row() returned nil")
+					} else if e := row.Scan(&v); e == nil {
+						r.Val, r.Found = v, true
+					} else if !errors.Is(e, sql.ErrNoRows) {
+						r.Err = e
+					}
+				case opV:
+					val++
+					r.Err = h.Transaction(func(tx *gorm.DB) error {
+						if e := tx.Exec(qExec, val, key).Error; e != nil {
+							return e
+						}
+						var v int64
+						row := tx.Raw(qSel, key).Row()
+						if row == nil {
+							return errors.New("Row() returned nil")
+						}
+						if e := row.Scan(&v); e == nil {
+							r.Val, r.Found = v, true
+						} else if !errors.Is(e, sql.ErrNoRows) {
+							return e
+						}
+						return nil
+					})
 				case opR:
 					out.resets++
 					cacheOf(db).Reset()
@@ -254,7 +285,7 @@ func expectedVal(prog string, ti, i int, ok func(j int) bool) (val int64, found 
 	cur, has := int64(0), false
 	for j := 0; j <= i; j++ {
 		switch prog[j] {
-		case opX, opT, opP:
+		case opX, opT, opP, opV:
 			v++
 			if ok(j) {
 				cur, has = v, true
@@ -325,7 +356,7 @@ func judge(p Program, o *outcome) []verdict {
 			}
 			want, has := expectedVal(p.Threads[ti], ti, i, func(j int) bool { return rs[j].Err == nil })
 			switch r.Op {
-			case opS, opS2, opT:
+			case opS, opS2, opT, opW, opV:
 				if r.Found != has || (has && r.Val != want) {
 					add("wrong-rows", nil, "thread %d op %d (%c) read (%d,%v), sequential non-prepared run reads (%d,%v)", ti, i, r.Op, r.Val, r.Found, want, has)
 				}
@@ -507,6 +538,10 @@ func programs(tier string, race bool) []Program {
 				}
 			}
 		}
+	}
+	// QueryRowContext paths, outside and inside transactions, after the text was cached by the other path
+	for _, pr := range [][]string{{"wV"}, {"SV"}, {"Vw"}, {"XwV"}, {"w", "V"}, {"SV", "X"}, {"wV", "S"}, {"V", "V"}, {"wV", "R"}} {
+		add(Program{Threads: pr, Bound: b2})
 	}
 	// session first use
 	add(Program{Threads: []string{"P", "P"}, SessionMode: true, Bound: 4})
